@@ -197,7 +197,35 @@ def execute(case, chooser):
     nloads = 0
     stats = {}
     bombs = 0
+    # "loads terminates": an interval timer bounds every run (thousands of loads of a few microseconds each); a load
+    # that is still running when it fires is reported with the very input it was given
+    import signal
+
+    class _LoadTimeout(BaseException):
+        pass
+
+    def _on_alarm(signum, frame):
+        if _state.get("in_load"):
+            raise _LoadTimeout()
+
+    use_timer = hasattr(signal, "setitimer") and __import__("threading").current_thread() is __import__("threading").main_thread()
+    old_handler = signal.signal(signal.SIGALRM, _on_alarm) if use_timer else None
+    try:
+        return _execute_loads(case, chooser, ex, gb, dmg, only, V, seen, stats, val, data, _LoadTimeout, use_timer, signal)
+    finally:
+        if use_timer:
+            signal.setitimer(signal.ITIMER_REAL, 0)
+            signal.signal(signal.SIGALRM, old_handler)
+
+
+def _execute_loads(case, chooser, ex, gb, dmg, only, V, seen, stats, val, data, _LoadTimeout, use_timer, signal):
+    nloads = 0
+    bombs = 0
+    LIMIT = 5.0  # seconds of wall clock per single load before it counts as not terminating
+    hung = False
     for kind, d in dmg:
+        if hung:
+            break  # one non-terminating load per run is enough (each costs LIMIT seconds)
         # a damaged NEWLIST length makes the loader allocate up to hundreds of MB (the listed known finding
         # alloc-by-length-field); evaluate a bounded number of such strings per run, deterministically
         if not only and _has_length_bomb(d):
@@ -208,6 +236,8 @@ def execute(case, chooser):
         for api in ("loads", "load"):
             nloads += 1
             _state["events"] = []
+            if use_timer and (nloads % 16 == 1 or only or hung):
+                signal.setitimer(signal.ITIMER_REAL, LIMIT)  # one-shot; re-armed every 16 loads and after it fired
             _state["in_load"] = True
             try:
                 if api == "loads":
@@ -215,6 +245,9 @@ def execute(case, chooser):
                 else:
                     res = ex.load(io.BytesIO(d))
                 outcome = ("value", res)
+            except _LoadTimeout:
+                outcome = ("hang",)
+                hung = True
             except (gb.DataFormatError, EOFError) as e:
                 outcome = ("typed", type(e).__name__)
             except MemoryError as e:
@@ -227,6 +260,9 @@ def execute(case, chooser):
             viol = None
             if _state["events"]:
                 viol = v("side-effect-during-load", _state["events"][0], f"{api}({d!r}) triggered {_state['events']}")
+            elif outcome[0] == "hang":
+                viol = v("load-did-not-terminate", api, f"{api}({d!r}) was still running after {LIMIT:.0f} s "
+                                                        f"(damage kind {kind} of dumps({case['value_repr']}))")
             elif outcome[0] == "other":
                 viol = v("load-wrong-exception", f"{outcome[1]};{outcome[2]}",
                          f"{api}({d!r}) raised {outcome[1]} in {outcome[2]} (damage kind {kind} of dumps({case['value_repr']}))")
